@@ -46,6 +46,9 @@ class CombinedDataHandler:
         elif handle_unreporting == "zero":
             indices_with_null_val = data[result_cols].isna().any(axis=1)
             data.update(data[result_cols].fillna(value=0))
+            # what is derived from the missing counts (weights, normalized margin) is that of a unit without votes
+            derived_cols = [col for col in data.columns if col.startswith("results_") and col not in result_cols]
+            data.loc[indices_with_null_val, derived_cols] = data.loc[indices_with_null_val, derived_cols].fillna(0)
             data.loc[indices_with_null_val, "percent_expected_vote"] = 0
 
         self.n_minimum_for_outlier_detection_model = 20
